@@ -252,6 +252,16 @@ def sites_of(F, inst):
                 s.macro = t.get("macro")
                 s.status, s.how = ("discharged", how) if how else ("open", "explicit panic edge (%s)" % (t.get("macro") or path))
                 out.append(s)
+            elif path in ("core::iter::traits::iterator::Iterator::sum", "core::iter::traits::iterator::Iterator::product") or \
+                    ("core::iter::traits::accum::" in path and path.endswith(("::sum", "::product"))):
+                # integer Sum/Product are #[rustc_inherit_overflow_checks]: they panic on overflow exactly when the *calling* crate
+                # is built with overflow checks - a profile-dependent operation like a bare `+`
+                g_ = fr.get("gargs") or []
+                if any(x in T.INT_BITS for x in g_):
+                    s = Site(inst, bb, "overflow", "Sum" if path.endswith("sum") else "Product", tuple(tb.operand(a, at_end) for a in t["args"]), t.get("span", ""))
+                    s.status, s.how = "open", "sum/product of integers: overflow panics with overflow checks and wraps without"
+                    out.append(s)
+                continue
             elif path in MAYPANIC:
                 args = tuple(tb.operand(a, at_end) for a in t["args"])
                 s = Site(inst, bb, "maypanic", MAYPANIC[path] or path.split("::")[-1], args, t.get("span", ""))
